@@ -4,7 +4,7 @@ MC          : AtomVer_MC (version order: total preorder, operator readings, glob
               triple of a bounded version grammar) and AtomMatch_MC (laws of Matches over every
               (atom, package) of a universe varying every field).
 spec -> code: AtomMatch_Export enumerates bounded universes of atoms and packages (blocks "ver",
-              "attr", "key"); the real atom.match is evaluated on the FULL cross product of each
+              "attr", "key", "slotop"); the real atom.match is evaluated on the FULL cross product of each
               block, for the atom and for its "!" and "!!" forms.
 code -> spec: seeded random atoms (long digit runs, leading zeros, letters, stacked suffixes,
               revisions, slots, repositories, USE dependencies with defaults) against random
@@ -77,6 +77,10 @@ def atom_text(a, blocks=""):
         s += ":" + a["slot"]
         if a["subslot"]:
             s += "/" + a["subslot"]
+        if a.get("slotop") == "=":
+            s += "="
+    elif a.get("slotop"):
+        s += ":" + a["slotop"]
     if a["repo"]:
         s += "::" + a["repo"]
     if a["deps"]:
@@ -207,36 +211,36 @@ def run(ck):
         "'=v*' against a package whose only equal truncation is weak or differently spelled, and a USE dependency "
         "without default on a flag outside IUSE, are left open by PMS: counted, not judged",
     ]
-    # 1. design (the two model-checking runs go on in the background while the conformance part runs)
     bg = BackgroundMC()
-    bg.start("MC:version order + glob laws (all triples)", "AtomVer_MC",
-             "SPECIFICATION Spec\nCONSTANT Size = %d\n" % size + "".join(
-                 f"INVARIANT {i}\n" for i in "Refl AntiSym Trans TransEq Ops GlobSelf GlobEq GlobTrans GlobRev GlobAnyRev TextInj IncLaw".split()))
-    bg.start("MC:laws of Matches (all atom x package)", "AtomMatch_MC",
-             "SPECIFICATION Spec\nCONSTANT Size = %d\n" % size + "".join(
-                 f"INVARIANT {i}\n" for i in "Monotone MonotoneF USources Contradict DefaultIrrelevant Partition KeyDecides".split()))
-    # 2. spec -> code : universes from TLC, full cross product per block
-    recs = ck.export("AtomMatch_Export", cfg_text="CONSTANT Size = %d\n" % size, timeout=800)
-    atoms = [x for x in recs if x["kind"] == "atom"]
-    pkgs = [x for x in recs if x["kind"] == "pkg"]
-    pairs = []
-    for blk in ("ver", "attr", "key"):
-        ai = [i + 1 for i, x in enumerate(atoms) if x["blk"] == blk]
-        pi = [i + 1 for i, x in enumerate(pkgs) if x["blk"] == blk]
-        if not ai or not pi:
-            raise tlc.MachineryError(f"export block {blk} is empty")
-        pairs += [(a, p) for a in ai for p in pi]
-    ck.exhaustive = True
-    # 3. code -> spec : random
-    r = rng(4)
-    ra, rp, rpairs = rand_cases(r, ck.pick(400, 6000), ck.pick(8, 12))
-    na, np_ = len(atoms), len(pkgs)
-    atoms += ra
-    pkgs += rp
-    pairs += [(a + na, p + np_) for a, p in rpairs]
-    if ck.replay_case:
-        d = ck.replay_case["detail"]
-        atoms, pkgs, pairs = [d["atom_rec"]], [d["pkg_rec"]], [(1, 1)]
+    # (--replay: the whole run is repeated and only the replayed pair is reported: some defects of
+    #  the matcher depend on which other atoms are alive in the process, see restriction caching)
+    if True:
+        # 1. design (the two model-checking runs go on in the background while the conformance part runs)
+        bg.start("MC:version order + glob laws (all triples)", "AtomVer_MC",
+                 "SPECIFICATION Spec\nCONSTANT Size = %d\n" % size + "".join(
+                     f"INVARIANT {i}\n" for i in "Refl AntiSym Trans TransEq Ops GlobSelf GlobEq GlobTrans GlobRev GlobAnyRev TextInj IncLaw".split()))
+        bg.start("MC:laws of Matches (all atom x package)", "AtomMatch_MC",
+                 "SPECIFICATION Spec\nCONSTANT Size = %d\n" % size + "".join(
+                     f"INVARIANT {i}\n" for i in "Monotone MonotoneF USources Contradict DefaultIrrelevant Partition KeyDecides".split()))
+        # 2. spec -> code : universes from TLC, full cross product per block
+        recs = ck.export("AtomMatch_Export", cfg_text="CONSTANT Size = %d\n" % size, timeout=800)
+        atoms = [x for x in recs if x["kind"] == "atom"]
+        pkgs = [x for x in recs if x["kind"] == "pkg"]
+        pairs = []
+        for blk in ("ver", "attr", "key", "slotop"):
+            ai = [i + 1 for i, x in enumerate(atoms) if x["blk"] == blk]
+            pi = [i + 1 for i, x in enumerate(pkgs) if x["blk"] == blk]
+            if not ai or not pi:
+                raise tlc.MachineryError(f"export block {blk} is empty")
+            pairs += [(a, p) for a in ai for p in pi]
+        ck.exhaustive = True
+        # 3. code -> spec : random
+        r = rng(4)
+        ra, rp, rpairs = rand_cases(r, ck.pick(400, 6000), ck.pick(8, 12))
+        na, np_ = len(atoms), len(pkgs)
+        atoms += ra
+        pkgs += rp
+        pairs += [(a + na, p + np_) for a, p in rpairs]
 
     real_atoms = [b.mk_atoms(a) for a in atoms]
     real_pkgs = [b.mk_pkg(p) for p in pkgs]
@@ -264,11 +268,14 @@ def run(ck):
         if n not in unspec:
             ck.nontriv((events[n]["a"], events[n]["p"]))
     ck.extra["unspecified_pairs"] = len(unspec)
+    want = ck.replay_case["detail"] if ck.replay_case else None
     for v in verdicts:
         if v["clause"] == "Unspecified":
             continue
         e = events[v["tid"]]
         a, p = atoms[e["a"] - 1], pkgs[e["p"] - 1]
+        if want is not None and (a != want["atom_rec"] or p != want["pkg_rec"]):
+            continue
         ck.violation(v["clause"], dict(atom=atom_text(a), pkg=pkg_text(p), op=a["op"], pkg_slot=p["slot"], pkg_subslot=p["subslot"],
                                        pkg_repo=p["repo"], pkg_iuse=p["iuse"], pkg_use=p["use"],
                                        got=dict(plain=e["m"], weak_blocker=e["mb"], strong_blocker=e["mbb"], raised=e["raised"]),
